@@ -119,6 +119,58 @@ std::string to_xml(const std::vector<Obj>& d) {
     return s.str();
 }
 
+
+// o5m encoder written from the format description (independent of libosmium): varints, zig-zag deltas, string pairs inline on first
+// use and by back-reference afterwards (table of the most recent pairs), reset (0xff) before every change of object type, end marker.
+struct O5mWriter {
+    std::string out;
+    std::vector<std::string> table;      // stored string (pair) contents incl. terminators, oldest first
+    int64_t d_id = 0, d_ts = 0, d_cs = 0, d_lon = 0, d_lat = 0, d_wref = 0, d_mref[3] = {0, 0, 0};
+    static std::string uv(uint64_t v) { std::string r; while (v >= 0x80) { r += static_cast<char>((v & 0x7f) | 0x80); v >>= 7; } r += static_cast<char>(v); return r; }
+    static std::string sv(int64_t v) { return uv(v >= 0 ? static_cast<uint64_t>(v) << 1 : ((static_cast<uint64_t>(-(v + 1)) << 1) | 1)); }
+    void clear() { table.clear(); d_id = d_ts = d_cs = d_lon = d_lat = d_wref = 0; d_mref[0] = d_mref[1] = d_mref[2] = 0; }
+    std::string str(const std::string& content, size_t chars) {
+        for (size_t k = table.size(); k > 0 && table.size() - k < 15000; --k)
+            if (table[k - 1] == content) return uv(table.size() - k + 1);
+        if (chars <= 250) table.push_back(content);
+        return std::string(1, '\0') + content;
+    }
+    std::string pair(const std::string& a, const std::string& b) { return str(a + '\0' + b + '\0', a.size() + b.size()); }
+    void object(const Obj& o) {
+        std::string p = sv(o.id - d_id); d_id = o.id;
+        p += uv(o.version) + sv(int64_t(o.ts) - d_ts); d_ts = o.ts;
+        p += sv(int64_t(o.changeset) - d_cs); d_cs = o.changeset;
+        p += pair(uv(o.uid), o.user);
+        if (o.type == 'n') { p += sv(o.x - d_lon) + sv(o.y - d_lat); d_lon = o.x; d_lat = o.y; }
+        if (o.type == 'w') { std::string r; for (auto ref : o.refs) { r += sv(ref - d_wref); d_wref = ref; } p += uv(r.size()) + r; }
+        if (o.type == 'r') {
+            std::string r;
+            for (auto& m : o.members) {
+                const int t = std::get<0>(m) == 'n' ? 0 : std::get<0>(m) == 'w' ? 1 : 2;
+                r += sv(std::get<1>(m) - d_mref[t]); d_mref[t] = std::get<1>(m);
+                const std::string one = std::string(1, static_cast<char>('0' + t)) + std::get<2>(m);
+                r += str(one + '\0', one.size());
+            }
+            p += uv(r.size()) + r;
+        }
+        for (auto& t : o.tags) p += pair(t.first, t.second);
+        out += static_cast<char>(o.type == 'n' ? 0x10 : o.type == 'w' ? 0x11 : 0x12);
+        out += uv(p.size()) + p;
+    }
+};
+
+std::string to_o5m(const std::vector<Obj>& d) {
+    O5mWriter w;
+    w.out = std::string("\xff\xe0\x04o5m2", 7);
+    char last = 0;
+    for (auto& o : d) {
+        if (o.type != last) { w.out += '\xff'; w.clear(); last = o.type; }
+        w.object(o);
+    }
+    w.out += '\xfe';
+    return w.out;
+}
+
 void build_object(osmium::memory::Buffer& buf, const Obj& o) {
     using namespace osmium::builder;
     auto common = [&](auto& b) {
